@@ -641,7 +641,7 @@ let monitor_line prop line =
        "FAIL the call did not return an error or a result: " ^ obs
      | _, "K" :: rest -> monitor_chain prop rest obs
      | _, "PAIR" :: _ -> monitor_pair prop case obs
-     | "C19", "N" :: _ ->
+     | ("C19" | "C01"), "N" :: _ ->
        (* the condensed provider embedded in an outer chain (B) against the collection bound directly
           with the same inputs (A), both on the implementation *)
        (match split_on_sep case, split_on_sep obs with
@@ -707,7 +707,7 @@ let monitor_line prop line =
        (* the model is the direct computation the helper is specified by *)
        let m = model_line case in
        if obs = m then "PASS" else "FAIL the generated helper differs from direct computation: " ^ first_diff (split_ws obs) (split_ws m)
-     | ("C11" | "C01" | "C03" | "C14" | "C12" | "C08"), "H" :: _ ->
+     | ("C11" | "C01" | "C03" | "C14" | "C12" | "C08" | "C15"), "H" :: _ ->
        (* the property itself, on the implementation's observations alone: a never-used copy of the
           description (0), the collection after the history (1, 2, 7) and collections derived from it
           before the history (3, 4) behave identically; the derivation with one more provider (5) and the
